@@ -34,16 +34,41 @@ Definition from_names : stmt -> list name :=
     | _ => []
     end.
 
+Definition top_has_star (body : list stmt) : bool :=
+  existsb (fun s => match s with SStar _ _ => true | _ => false end) body.
+
+(* names a star import from X may bring (decidable over-approximation of "X exports n and binds it") *)
+Definition star_cand (P : project) (X : path) (n : name) : bool :=
+  exported P X n &&
+  match find_module P X with
+  | Some mx => is_some (m_all mx) || is_some (binder_of (m_body mx) n) || is_module P (X ++ [n])
+               || top_has_star (m_body mx)
+  | None => false
+  end.
+
 Record wf_project (P : project) : Prop := {
+  W_nodup : NoDup (map m_path P);
   W_ne : forall mm, In mm P -> m_path mm <> [];
   W_find : forall mm, In mm P -> find_module P (m_path mm) = Some mm;
   W_pref : forall mm q n, In mm P -> m_path mm = q ++ [n] -> q <> [] ->
              exists pm, find_module P q = Some pm /\ m_pkg pm = true;
   W_sub : forall pm n, In pm P -> is_module P (m_path pm ++ [n]) = true -> binder_of (m_body pm) n = None;
   W_body : forall mm, In mm P -> wf_body (m_body mm);
-  W_noexp : forall mm n, In mm P -> In n (flat_map from_names (m_body mm)) ->
-              mem_name n (def_or (m_all mm) []) = false
+  (* "each name is bound once per scope", for star imports: a name a star import may bring is not bound otherwise in
+     the importing module, is not one of its submodules, and comes from one star import only *)
+  W_star : forall mm level modname X n, In mm P -> In (SStar level modname) (m_body mm) ->
+             resolve_relative (m_path mm) (m_pkg mm) level modname = Some X -> star_cand P X n = true ->
+             binder_of (m_body mm) n = None /\ is_module P (m_path mm ++ [n]) = false /\
+             (forall l' mn' X', In (SStar l' mn') (m_body mm) ->
+                resolve_relative (m_path mm) (m_pkg mm) l' mn' = Some X' -> star_cand P X' n = true -> X' = X);
+  (* `import *` only at module level (a SyntaxError elsewhere) *)
+  W_star_top : forall mm, In mm P ->
+             forallb (fun s => match s with SClass _ _ b => forallb no_star_stmt b | _ => true end) (m_body mm) = true
 }.
+
+(* no module lists in __all__ a name it from-imports (the situation in which _handleReExport moves objects) *)
+Definition no_reexport (P : project) : Prop :=
+  forall mm n, In mm P -> In n (flat_map from_names (m_body mm)) -> mem_name n (def_or (m_all mm) []) = false.
 
 Definition simple_project (P : project) : bool := forallb (fun mm => forallb simple_stmt (m_body mm)) P.
 
@@ -93,6 +118,31 @@ Section Inv.
 
   Lemma find_is_module : forall m mm, find_module P m = Some mm -> is_module P m = true.
   Proof. unfold is_module. intros m mm H. rewrite H. reflexivity. Qed.
+
+  Lemma star_cand_of_py : forall X n v, exported P X n = true -> py_ns P X [] n v -> star_cand P X n = true.
+  Proof.
+    intros X n v He Hns. unfold star_cand. rewrite He. cbn.
+    inversion Hns as [m0 qual0 body0 n0 b0 v0 Hsb Hbo Hpb | m0 mm0 n0 Hfm0 Hpk0 Hbo0 Him0
+                      | m0 mm0 l0 mn0 X0 n0 v0 Hfm0 Hin0 Hrr0 Him0 Hne0 Hex0 Hns0]; subst.
+    - unfold scope_body in Hsb. destruct (find_module P X) as [mx|]; [|discriminate]. cbn in Hsb.
+      inversion Hsb; subst. rewrite Hbo. cbn. rewrite orb_true_r. reflexivity.
+    - rewrite Hfm0, Him0. rewrite orb_true_r. reflexivity.
+    - rewrite Hfm0. apply orb_true_iff. right. unfold top_has_star. apply existsb_exists.
+      eexists. split; [exact Hin0 | reflexivity].
+  Qed.
+
+  (* what a star-import derivation implies about the importing module (bound once per scope) *)
+  Lemma ns_star_fresh : forall m mm level modname X n v,
+    find_module P m = Some mm -> In (SStar level modname) (m_body mm) ->
+    resolve_relative m (m_pkg mm) level modname = Some X -> exported P X n = true -> py_ns P X [] n v ->
+    binder_of (m_body mm) n = None /\ is_module P (m ++ [n]) = false.
+  Proof.
+    intros m mm level modname X n v Hfm Hin Hrr Hex Hns.
+    pose proof (find_module_some _ _ Hfm) as [Hinm Hpm].
+    rewrite <- Hpm in Hrr.
+    destruct (W_star P WF mm level modname X n Hinm Hin Hrr (star_cand_of_py _ _ _ Hex Hns)) as [H1 [H2 _]].
+    rewrite Hpm in H2. auto.
+  Qed.
 
   Lemma module_prefix : forall b a, is_module P (a ++ b) = true -> a <> [] -> is_module P a = true.
   Proof.
@@ -155,9 +205,12 @@ Section Inv.
         pose proof (find_module_some _ _ Hpm) as [Hinp Hpp].
         assert (Hnone : binder_of (m_body pm) n = None).
         { apply (W_sub P WF); [exact Hinp|]. rewrite Hpp. eapply find_is_module; eassumption. }
-        inversion Hns as [m0 qual0 body0 n0 b0 v0 Hsb Hbo Hpb | m0 mm0 n0 Hfm0 Hpk0 Hbo0 Him0]; subst.
+        inversion Hns as [m0 qual0 body0 n0 b0 v0 Hsb Hbo Hpb | m0 mm0 n0 Hfm0 Hpk0 Hbo0 Him0
+                          | m0 mm0 l0 mn0 X0 n0 v0 Hfm0 Hin0 Hrr0 Him0 Hne0 Hex0 Hns0]; subst.
         * rewrite (scope_body_nil _ _ Hpm) in Hsb. inversion Hsb; subst. congruence.
         * reflexivity.
+        * exfalso. destruct (ns_star_fresh _ _ _ _ _ _ _ Hfm0 Hin0 Hrr0 Hex0 Hns0) as [_ Hnm].
+          rewrite (find_is_module _ _ Hf) in Hnm. discriminate.
   Qed.
 
   Lemma descend_app : forall q1 body q2,
@@ -199,10 +252,13 @@ Section Inv.
   Proof.
     intros m qual body c b v Hsb Hb Hk Ha.
     assert (Hns : py_ns P m qual c v -> v = VObj m (qual ++ [c])).
-    { intro Hns. inversion Hns as [m0 qual0 body0 n0 b0 v0 Hsb0 Hbo Hpb | m0 mm0 n0 Hfm0 Hpk0 Hbo0 Him0]; subst.
+    { intro Hns. inversion Hns as [m0 qual0 body0 n0 b0 v0 Hsb0 Hbo Hpb | m0 mm0 n0 Hfm0 Hpk0 Hbo0 Him0
+                                   | m0 mm0 l0 mn0 X0 n0 v0 Hfm0 Hin0 Hrr0 Him0 Hne0 Hex0 Hns0]; subst.
       - rewrite Hsb in Hsb0. inversion Hsb0; subst. rewrite Hb in Hbo. inversion Hbo; subst.
         destruct Hk as [Hk | [base [bb Hk]]]; subst; inversion Hpb; subst; reflexivity.
-      - rewrite (scope_body_nil _ _ Hfm0) in Hsb. inversion Hsb; subst. congruence. }
+      - rewrite (scope_body_nil _ _ Hfm0) in Hsb. inversion Hsb; subst. congruence.
+      - exfalso. destruct (ns_star_fresh _ _ _ _ _ _ _ Hfm0 Hin0 Hrr0 Hex0 Hns0) as [Hnb _].
+        rewrite (scope_body_nil _ _ Hfm0) in Hsb. inversion Hsb; subst. congruence. }
     destruct qual as [|q0 qual]; cbn [scope_val] in Ha.
     - inversion Ha; subst. auto.
     - inversion Ha as [ | m0 qual0 n0 v0 Hq Hns' | m0 qual0 body0 n0 bexpr m' q' v0 Hq Hsb0 Hbo]; subst.
@@ -277,7 +333,8 @@ Section Inv.
   (* ---------------------------------------------------------------- the invariant, object by object *)
   Definition entry_ok (m qual : path) (n : name) (q : path) : Prop :=
     (forall v', py_attr P (scope_val m qual) n v' -> py_abs P q v') /\
-    (forall body, scope_body P m qual = Some body -> binder_of body n <> None).
+    (forall body, scope_body P m qual = Some body ->
+       binder_of body n <> None \/ (qual = [] /\ top_has_star body = true)).
 
   Inductive reg_ok (o : obj) : path -> path -> Prop :=
   | reg_mod : forall mm, find_module P (o_id o) = Some mm ->
@@ -369,7 +426,8 @@ Section Inv.
           destruct (split_unique _ _ _ _ _ _ Hsbc Hsb Hpre) as [? ?]; subst.
           rewrite Hsbc in Hsb. inversion Hsb; subst. congruence.
       + destruct (assoc n (o_amap o)) as [q|] eqn:Eas; [|discriminate].
-        destruct (He n q Eas) as [_ H2]. apply H2. exact Hsb.
+        destruct (He n q Eas) as [_ H2]. destruct (H2 _ Hsb) as [H3 | [Hq _]]; [exact H3|].
+        subst qual. cbn in Hv. discriminate.
     - (* C_find *)
       intros c n inh vo v' Hin Hch Has Hf. exfalso. destruct (HI c Hin) as [_ [Hb _]].
       unfold find_for in Hf. destruct (o_kind c); try discriminate.
@@ -465,6 +523,9 @@ Section Inv.
     apply good_set_amap; [apply (proj1 H); exact Hin|]. intros m qual Hr. eapply He; eassumption.
   Qed.
 
+  Lemma Inv2_flag_leak : forall b st, Inv2 st -> Inv2 (flag_leak b st).
+  Proof. intros b st H. exact H. Qed.
+
   Lemma Inv2_register : forall st o, Inv2 st -> good o -> Inv2 (register st o).
   Proof.
     intros st o [HI HM] Hg. unfold register. destruct (obj_for st (o_path o)).
@@ -521,9 +582,12 @@ Section Inv.
   Proof.
     intros m qual body n b v Hsb Hb Ha.
     assert (Hns : py_ns P m qual n v -> py_binder P m qual n b v).
-    { intro Hns. inversion Hns as [m0 qual0 body0 n0 b0 v0 Hsb0 Hbo Hpb | m0 mm0 n0 Hfm0 Hpk0 Hbo0 Him0]; subst.
+    { intro Hns. inversion Hns as [m0 qual0 body0 n0 b0 v0 Hsb0 Hbo Hpb | m0 mm0 n0 Hfm0 Hpk0 Hbo0 Him0
+                                   | m0 mm0 l0 mn0 X0 n0 v0 Hfm0 Hin0 Hrr0 Him0 Hne0 Hex0 Hns0]; subst.
       - rewrite Hsb in Hsb0. inversion Hsb0; subst. rewrite Hb in Hbo. inversion Hbo; subst. exact Hpb.
-      - rewrite (scope_body_nil _ _ Hfm0) in Hsb. inversion Hsb; subst. congruence. }
+      - rewrite (scope_body_nil _ _ Hfm0) in Hsb. inversion Hsb; subst. congruence.
+      - exfalso. destruct (ns_star_fresh _ _ _ _ _ _ _ Hfm0 Hin0 Hrr0 Hex0 Hns0) as [Hnb _].
+        rewrite (scope_body_nil _ _ Hfm0) in Hsb. inversion Hsb; subst. congruence. }
     destruct qual as [|q0 qual]; cbn [scope_val] in Ha.
     - inversion Ha; subst. auto.
     - inversion Ha as [ | m0 qual0 n0 v0 Hq Hns' | m0 qual0 body0 n0 bexpr m' q' v0 Hq Hsb0 Hbo]; subst.
@@ -544,7 +608,7 @@ Section Inv.
     split.
     - intros v' Ha. pose proof (attr_binder _ _ _ _ _ _ Hsb Hb Ha) as Hpb. inversion Hpb; subst.
       cbn. split; [assumption | constructor].
-    - intros body' Hsb'. rewrite Hsb in Hsb'. inversion Hsb'; subst. congruence.
+    - intros body' Hsb'. left. rewrite Hsb in Hsb'. inversion Hsb'; subst. congruence.
   Qed.
 
   Lemma entry_import_as : forall m qual body c t,
@@ -558,7 +622,7 @@ Section Inv.
     - intros v' Ha. pose proof (attr_binder _ _ _ _ _ _ Hsb Hb Ha) as Hpb. inversion Hpb; subst.
       match goal with H : is_module P t = true |- _ => apply is_module_find in H; destruct H as [mm Hm] end.
       eapply py_abs_module; eassumption.
-    - intros body' Hsb'. rewrite Hsb in Hsb'. inversion Hsb'; subst. congruence.
+    - intros body' Hsb'. left. rewrite Hsb in Hsb'. inversion Hsb'; subst. congruence.
   Qed.
 
   Lemma from_binder_in : forall level modname names orig asname,
@@ -601,7 +665,7 @@ Section Inv.
       + rewrite Hfm in Hfm0. inversion Hfm0; subst. rewrite Hib in Hrr. inversion Hrr; subst.
         apply is_module_find in Him. destruct Him as [mx Hmx].
         eapply py_abs_module; eassumption.
-    - intros body' Hsb'. rewrite Hsb in Hsb'. inversion Hsb'; subst. congruence.
+    - intros body' Hsb'. left. rewrite Hsb in Hsb'. inversion Hsb'; subst. congruence.
   Qed.
 
   (* ---------------------------------------------------------------- the visitor keeps the invariant *)
@@ -729,6 +793,7 @@ Section Inv.
         { eapply wf_uniq; try eassumption. cbn. rewrite N.eqb_refl. reflexivity. }
         pose proof (proj2 (by_id_some _ _ _ Eby)) as Hidp.
         rewrite Hpp, Hidp. rewrite <- app_assoc.
+        apply Inv2_set_state.
         apply fold_inv.
         + intros s' st' Hs' HI'. rewrite Forall_forall in IHs.
           apply (IHs s' Hs' st' m (qual ++ [n]) cbody mm); try assumption.
@@ -736,7 +801,7 @@ Section Inv.
           * inversion Hwf; subst. eauto.
           * rewrite forallb_forall in Hsimple. apply Hsimple. exact Hs'.
           * intros k Hk. apply Hexp. cbn. apply in_flat_map. exists s'. split; assumption.
-        + apply Inv2_register; [exact HI|].
+        + apply Inv2_register; [apply Inv2_flag_leak; exact HI|].
           repeat split; try reflexivity.
           exists m, (qual ++ [n]). split.
           * eapply reg_class; try eassumption; reflexivity.
@@ -758,6 +823,7 @@ Section Inv.
   End ExecInv.
 
   Hypothesis SIMPLE : simple_project P = true.
+  Hypothesis NOEXP : no_reexport P.
 
   Lemma process_module_inv : forall fuel st mid, Inv2 st -> Inv2 (process_module fuel P st mid).
   Proof.
@@ -774,7 +840,7 @@ Section Inv.
       + apply (W_body P WF). exact Hinm.
       + unfold simple_project in SIMPLE. rewrite forallb_forall in SIMPLE.
         pose proof (SIMPLE mm Hinm) as Hs'. rewrite forallb_forall in Hs'. apply Hs'. exact Hs.
-      + intros n Hn. apply (W_noexp P WF mm n Hinm). apply in_flat_map. exists s. split; assumption.
+      + intros n Hn. apply (NOEXP mm n Hinm). apply in_flat_map. exists s. split; assumption.
       Unshelve.
       intros st0 q HI0. cbn.
       destruct (obj_for st0 q) as [mo|]; [|exact HI0].
@@ -789,10 +855,10 @@ Section Inv.
     destruct (o_state mo); try exact HI'. apply process_module_inv. exact HI'.
   Qed.
 
-  Lemma finalize_bases_id : forall st, Inv st -> objs (finalize_bases st) = objs st.
+  Lemma finalize_bases_id : forall st, Inv st -> objs (finalize_bases P st) = objs st.
   Proof.
     intros st HI. cbn. rewrite <- (map_id (objs st)) at 2. apply map_ext_in.
-    intros o Hin. destruct (HI o Hin) as [_ [_ [Hr _]]]. rewrite Hr.
+    intros o Hin. destruct (HI o Hin) as [_ [_ [Hr _]]]. unfold final_base. rewrite Hr.
     destruct (o_kind o); reflexivity.
   Qed.
 
@@ -821,7 +887,7 @@ End Inv.
    processing order, every context and dotted name whose first part the context itself binds and that does not
    run into the class-to-enclosing-scope fallback: what resolveName returns is what Python binds. *)
 Theorem expand_sound_project : forall P order ctx m qual dotted v o,
-  wf_project P -> simple_project P = true ->
+  wf_project P -> simple_project P = true -> no_reexport P ->
   let st := final_state P order in
   In ctx (objs st) -> py_abs P (o_path ctx) (scope_val m qual) ->
   py_lookup P m qual dotted v ->
@@ -829,6 +895,6 @@ Theorem expand_sound_project : forall P order ctx m qual dotted v o,
   resolve_name st ctx dotted = Some o ->
   denotes o v.
 Proof.
-  intros P order ctx m qual dotted v o WF SIMPLE st Hin Habs Hpy Hok Hres.
+  intros P order ctx m qual dotted v o WF SIMPLE NOEXP st Hin Habs Hpy Hok Hres.
   eapply resolve_sound; try eassumption. apply final_coherent; assumption.
 Qed.
